@@ -2005,10 +2005,12 @@ class SpaceUpdater(SharedSpaceOperations):
         for b in basenodes:
             self._graph.remove_edge(b, node)
 
-        # Without the bases, a sub space may have no MRO any more
+        # Without the bases, a sub space may have no MRO any more,
+        # or derive a 'relative' reference it cannot re-bind
         for n in itertools.chain({node}, nx.descendants(
                 self._graph, node)):
             self._graph.get_mro(n)
+            self._check_relative_refs(n)
 
         self._instructions.append(
             Instruction(self._update_derived_space, (node,))
@@ -2058,9 +2060,11 @@ class SpaceUpdater(SharedSpaceOperations):
 
         self._graph.remove_nodes_from(nodes_removed)
 
-        # Without the spaces, a sub space may have no MRO any more
+        # Without the spaces, a sub space may have no MRO any more,
+        # or derive a 'relative' reference it cannot re-bind
         for n in subs:
             self._graph.get_mro(n)
+            self._check_relative_refs(n)
 
         self._instructions.execute()
         self._update_manager()
